@@ -258,18 +258,38 @@ func (s *metricSchemaStore) Flush() error {
 	if err != nil {
 		return err
 	}
-	err = s.immutable.WalkEntry(func(key uint32, value *metric.Schema) error {
-		if !value.NeedWrite() {
-			return nil
+	// NOTE: schema of immutable store maybe is shared with mutable store(writer appends field/tag key under write lock),
+	// so copy the schemas under lock, write the copies, then only mark what has been written as persisted.
+	type flushSchema struct {
+		key    uint32
+		schema *metric.Schema
+		copied metric.Schema
+	}
+	var schemas []flushSchema
+	s.lock.RLock()
+	_ = s.immutable.WalkEntry(func(key uint32, value *metric.Schema) error {
+		if value.NeedWrite() {
+			schemas = append(schemas, flushSchema{
+				key:    key,
+				schema: value,
+				copied: metric.Schema{
+					Fields:  append(field.Metas{}, value.Fields...),
+					TagKeys: append(tag.Metas{}, value.TagKeys...),
+				},
+			})
 		}
-		flusher.Prepare(key)
-		if err0 := flusher.Write(value); err0 != nil {
+		return nil
+	})
+	s.lock.RUnlock()
+
+	for idx := range schemas {
+		flusher.Prepare(schemas[idx].key)
+		if err0 := flusher.Write(&schemas[idx].copied); err0 != nil {
 			return err0
 		}
-		return flusher.Commit()
-	})
-	if err != nil {
-		return err
+		if err0 := flusher.Commit(); err0 != nil {
+			return err0
+		}
 	}
 	err = flusher.Close()
 	if err != nil {
@@ -277,11 +297,15 @@ func (s *metricSchemaStore) Flush() error {
 	}
 
 	s.lock.Lock()
-	// mark schema persisted
-	_ = s.immutable.WalkEntry(func(_ uint32, value *metric.Schema) error {
-		value.MarkPersisted()
-		return nil
-	})
+	// mark schema persisted(fields/tag keys are appended only, so written ones are the head of the list)
+	for idx := range schemas {
+		for i := range schemas[idx].copied.Fields {
+			schemas[idx].schema.Fields[i].Persisted = true
+		}
+		for i := range schemas[idx].copied.TagKeys {
+			schemas[idx].schema.TagKeys[i].Persisted = true
+		}
+	}
 	s.immutable = nil
 	s.flushVersion++
 	s.cache.Purge()
